@@ -1648,3 +1648,213 @@ _run_before_config_slots = run
 def run(chk):       # noqa: F811
     _run_before_config_slots(chk)
     rule_config_slots(chk)
+
+
+# ---------------------------------------------------------------------------------------------------------------
+# C13.pre-check and C13.case (round 5)
+#
+# C13.pre-check  the pre-check an extractor applies to the whole input before running its patterns (_pre_check_str, through the
+#                MRO of the registered extractor class) is interpreted on a shortest member of every top-level alternative of
+#                every pattern the extractor wires: it must admit it.  (A length threshold above the shortest match silently
+#                removes a layout, e.g. the undashed 32-character GUID.)
+# C13.case       an extractor that looks captured text up in a table of lower-case words with the case-sensitive StringMatcher
+#                must be fed lower-cased text: the model lower-cases the query (QueryProcessor.preprocess reaching extract), or the
+#                lookup key is lower-cased at the lookup.
+
+def shortest_member(n):
+    """a shortest string of L+(n) (assertions are empty)"""
+    k = n.kind
+    if k == 'lit':
+        return n.c
+    if k == 'sym':
+        return n.c
+    if k == 'any':
+        return 'a'
+    if k == 'cc':
+        return {'d': '0', 'w': 'a', 's': ' ', 'S': 'a', 'W': '-', 'D': 'a'}.get(n.c, 'a')
+    if k == 'range':
+        return n.c[0]
+    if k == 'class':
+        if not n.neg:
+            return shortest_member(n.items[0]) if n.items else ''
+        for cand in 'a0-_ .:/@#~':
+            if rx._ch_match(n, cand):
+                return cand
+        return 'a'
+    if k == 'seq':
+        return ''.join(shortest_member(x) for x in n.items)
+    if k == 'alt':
+        return min((shortest_member(a) for a in n.items), key=len)
+    if k == 'group':
+        return shortest_member(n.node)
+    if k == 'rep':
+        return shortest_member(n.node) * n.lo
+    return ''
+
+
+def lowering_assignment(ev, mcls):
+    """does the text handed to self.extractor.extract(...) in Model.parse come from a lower-casing pre-processing call?
+    -> (bool, description)"""
+    idx = ev.idx
+    k, fn = idx.find_method(mcls, 'parse')
+    if fn is None:
+        raise AnalysisError('%s has no parse' % mcls.name)
+    ext = [n for n in ast.walk(fn) if isinstance(n, ast.Call) and isinstance(n.func, ast.Attribute) and n.func.attr == 'extract'
+           and dotted(n.func.value) == 'self.extractor' and n.args]
+    if not ext:
+        raise AnalysisError('%s.parse: call self.extractor.extract(...) not found' % k.name)
+    arg = ext[0].args[0]
+    if not isinstance(arg, ast.Name):
+        return False, 'extract() is not called with a plain variable'
+    last = None
+    for n in ast.walk(fn):
+        if isinstance(n, ast.Assign) and len(n.targets) == 1 and isinstance(n.targets[0], ast.Name) and n.targets[0].id == arg.id \
+                and n.lineno <= ext[0].lineno:
+            if last is None or n.lineno > last.lineno:
+                last = n
+    if last is None:
+        return False, '%s.parse passes the raw query to extract()' % k.name
+
+    def lowers(expr, depth):
+        if not isinstance(expr, ast.Call):
+            return False, 'value %s' % ast.unparse(expr)[:40]
+        if dotted(expr.func) == 'QueryProcessor.preprocess':
+            return preprocess_lowercases(ev, expr), 'QueryProcessor.preprocess'
+        if is_self_attr(expr.func) and depth > 0:
+            kk, m = idx.find_method(mcls, expr.func.attr)
+            if m is not None:
+                rets = [r.value for r in ast.walk(m) if isinstance(r, ast.Return) and r.value is not None]
+                if rets and all(lowers(r, depth - 1)[0] for r in rets):
+                    return True, '%s.%s -> QueryProcessor.preprocess' % (kk.name, m.name)
+                return False, '%s.%s returns %s' % (kk.name, m.name, '/'.join(ast.unparse(r)[:30] for r in rets) or 'nothing')
+        return False, 'call %s' % ast.unparse(expr.func)
+    return lowers(last.value, 2)
+
+
+def table_lookups(ev, ecls):
+    """StringMatcher-style lookups of an extractor class: X.init(<list of words>) ... X.find(key)
+    -> [(defining class, find call, key lowered?, table, init expr text)]"""
+    idx = ev.idx
+    inits, finds = {}, []
+    for k in idx.mro(ecls):
+        if not k.mod.name.startswith('recognizers_sequence'):
+            continue
+        for fn in k.methods.values():
+            lowered_locals = set()
+            for n in ast.walk(fn):
+                if isinstance(n, ast.Assign) and len(n.targets) == 1 and isinstance(n.targets[0], ast.Name) \
+                        and any(isinstance(c, ast.Call) and isinstance(c.func, ast.Attribute) and c.func.attr in ('lower', 'casefold')
+                                for c in ast.walk(n.value)):
+                    lowered_locals.add(n.targets[0].id)
+            for n in ast.walk(fn):
+                if isinstance(n, ast.Call) and isinstance(n.func, ast.Attribute) and len(n.args) >= 1:
+                    recv = ast.unparse(n.func.value)
+                    if n.func.attr == 'init':
+                        try:
+                            v = ev.ev(k.mod, n.args[0])
+                        except Unresolved:
+                            continue
+                        if isinstance(v, list) and v and all(isinstance(x, str) for x in v):
+                            inits[recv] = (v, ast.unparse(n.args[0]))
+                    elif n.func.attr == 'find':
+                        a = n.args[0]
+                        low = (isinstance(a, ast.Name) and a.id in lowered_locals) or any(
+                            isinstance(c, ast.Call) and isinstance(c.func, ast.Attribute) and c.func.attr in ('lower', 'casefold')
+                            for c in ast.walk(a))
+                        finds.append((k, n, recv, low))
+    return [(k, n, low, inits[recv][0], inits[recv][1]) for k, n, recv, low in finds if recv in inits]
+
+
+def rule_precheck_and_case(chk):
+    from .c03 import DigitInterp
+    ev = Ev()
+    idx = ev.idx
+    chk.rule('C13.pre-check', 'the extractor\'s input pre-check admits a shortest member of every alternative of every wired pattern',
+             floor=8, control=True)
+    chk.rule('C13.case', 'a case-sensitive lookup in a lower-case word table is fed lower-cased text', floor=1, control=True)
+    regs = registrations(ev, SEQ_RECOGNIZER)
+    seen = set()
+    matcher_folds = False
+    for name, m in idx.mods.items():
+        if name.startswith('recognizers_text.matcher'):
+            for n in ast.walk(m.tree):
+                if isinstance(n, ast.Call) and isinstance(n.func, ast.Attribute) and n.func.attr in ('lower', 'casefold', 'upper'):
+                    matcher_folds = True
+    for r in regs:
+        e = r.args.get('extractor')
+        if not isinstance(e, ast.Call):
+            continue
+        ecls = idx.resolve_class(r.mod, e.func)
+        if ecls is None:
+            raise AnalysisError('%s:%d extractor class not resolvable' % (r.mod.rel, r.line))
+        ccls = idx.resolve_class(r.mod, e.args[0].func) if e.args and isinstance(e.args[0], ast.Call) else None
+        # ---- case
+        for k, call, low, table, texpr in table_lookups(ev, ecls):
+            lower_only = all(w == w.lower() for w in table) and any(c.isalpha() for w in table for c in w)
+            mlow, how = lowering_assignment(ev, r.model_cls)
+            construct = '%s: %s for %s' % (k.name, ast.unparse(call)[:60], r.construct)
+            if not lower_only or matcher_folds:
+                chk.ok('C13.case', k.mod.path, construct, 'table %s is not lower-case-only / the matcher folds case' % texpr, call.lineno)
+                continue
+            chk.judge(mlow or low, 'C13.case', k.mod.path, construct,
+                      'table %s: %d lower-case words; model lower-cases: %s (%s); key lower-cased at the lookup: %s' % (texpr, len(table), mlow, how, low),
+                      '%s looks the captured text up in %s (%d lower-case words) with the case-sensitive StringMatcher, but %s does not '
+                      'lower-case the query before extraction (%s) and the key is not lower-cased at the lookup: an upper-case spelling '
+                      '(e.g. the TLD of http://www.example.COM) is rejected' % (k.name, texpr, len(table), r.model_cls.name, how), call.lineno)
+        # ---- pre-check
+        key = (ecls.qual, ccls.qual if ccls else None)
+        if key in seen:
+            continue
+        seen.add(key)
+        pk, pfn = idx.find_method(ecls, '_pre_check_str')
+        if pfn is None:
+            continue
+        chk.consulted(pk.mod.path)
+        skipped = 0
+        for rv in extractor_closure(ev, ecls):
+            pat = None
+            if rv.kind == 'resource':
+                pat = rv.pattern
+            elif rv.kind == 'config' and ccls is not None:
+                v = slot(ev, ccls, rv.name).value
+                pat = v if isinstance(v, str) else None
+            if pat is None:
+                skipped += 1
+                continue
+            try:
+                tree = rx.parse(pat)
+            except rx.RxError:
+                skipped += 1
+                continue
+            wits = sorted({shortest_member(a) for a in top_alternatives(tree)}, key=len)
+            wits = [w for w in wits if w]
+            rejected = []
+            for w in wits:
+                ok_ = DigitInterp(idx, pk, '%s._pre_check_str' % pk.name, {}, ev).call(pfn, [w])
+                if not ok_:
+                    rejected.append(w)
+            label = rv.name or rv.expr
+            chk.judge(not rejected, 'C13.pre-check', pk.mod.path, '%s._pre_check_str vs %s%s' % (pk.name, label, ' [%s]' % ccls.name if ccls else ''),
+                      '%d shortest members (lengths %s) admitted: %s' % (len(wits), sorted({len(w) for w in wits}), not rejected),
+                      '%s._pre_check_str (used by %s) rejects %r (length %d), a shortest string of an alternative of %s: inputs consisting of '
+                      'such an entity are never looked at' % (pk.name, ecls.name, rejected[0] if rejected else '', len(rejected[0]) if rejected else 0,
+                                                              label), pfn.lineno)
+        if skipped:
+            chk.observe('%s: %d wired pattern(s) are parameterised / not evaluable and are not compared with the pre-check' % (ecls.name, skipped))
+    from ..index import Cls
+    em = idx.mod('recognizers_sequence.sequence.extractors')
+    ctl = Cls(em, ast.parse("class X:\n    @staticmethod\n    def _pre_check_str(source):\n        return len(source) >= 36\n").body[0])
+    chk.control('C13.pre-check', not DigitInterp(idx, ctl, 'control', {}, ev).call(ctl.methods['_pre_check_str'], ['a' * 32])
+                and len(shortest_member(rx.parse('(([a-f0-9]{8}(-[a-f0-9]{4}){3}-[a-f0-9]{12})|([a-f0-9]{32}))'))) == 32)
+    mm = idx.mod('recognizers_sequence.sequence.models')
+    ctl = Cls(mm, ast.parse("class M:\n    def parse(self, query):\n        query = self.preprocess(query)\n        r = self.extractor.extract(query)\n"
+                            "    def preprocess(self, query):\n        return query\n").body[0])
+    chk.control('C13.case', lowering_assignment(ev, ctl)[0] is False)
+
+
+_run_before_precheck_case = run
+
+
+def run(chk):       # noqa: F811
+    _run_before_precheck_case(chk)
+    rule_precheck_and_case(chk)
